@@ -128,7 +128,7 @@ GRID_T = ("AwsGrid.tla", "AwsGrid.cfg", {"Tier": '"thorough"'})
 SMALL_Q = ("MCAws.tla", "MCAwsQuick.cfg", {})
 SMALL_T = ("MCAws.tla", "MCAws.cfg", {})
 
-PLANS["C17"] = dict(kind="func", stages=[aws_stage([SMALL_Q, GRID_Q], [SMALL_T, GRID_T], max_q=900)],
+PLANS["C17"] = dict(kind="func", stages=[aws_stage([SMALL_Q, GRID_Q], [SMALL_T, GRID_T], max_q=4000)],
                     rule="cases: every terminal behaviour of the small-step fleet model (size x fault point) and every point of the (min, max, desired, instances, d, "
                          "lifecycle, overrides, subnets) grid, each run through the real NodeGroup.IncreaseSize; non-trivial: every case (each is a distinct input)",
                     required_facts=["fleet", "set-desired", "rejected", "fleet-success", "fleet-attach-several-batches", "del-then-increase", "fleet-second-scale-up-other-delta"], assumptions=AWS_ASSUMPTIONS)
@@ -137,8 +137,8 @@ PLANS["C18"] = dict(kind="func", stages=[aws_stage([SMALL_Q, GRID_Q], [SMALL_T, 
                          "any terminate call fails, create fails} x failure counter 0 / 2, run through the real provider; non-trivial: a case in which some step failed",
                     required_facts=["fleet-never-ready", "fleet-partially-ready-at-deadline", "fleet-attach-failed", "fleet-terminate-failed", "fleet-terminate-several-batches", "fleet-exit-after-3", "fleet-success"],
                     assumptions=AWS_ASSUMPTIONS)
-PLANS["C18"]["also_ctl"] = ctl([], [], [D("up", n=6, steps=45, procs=6, fleet=True, faults=45, groups=2, dry=0)],
-                               [D("up", n=20, steps=60, procs=12, fleet=True, faults=45, groups=2, dry=0)],
+PLANS["C18"]["also_ctl"] = ctl([], [], [D("up", n=4, steps=45, procs=6, fleet=True, faults=45, groups=2, dry=0), D("fleetfail", n=3, steps=40, procs=6, fleet=True, faults=70, groups=1, dry=0)],
+                               [D("up", n=20, steps=60, procs=12, fleet=True, faults=45, groups=2, dry=0), D("fleetfail", n=12, steps=60, procs=12, fleet=True, faults=70, groups=1, dry=0)],
                                "see provider level", ["C18:ctl-fleet-accepted", "C18:ctl-fleet-failed-no-lock"])
 PLANS["C18"]["also_ctl"]["sim"] = {}
 PLANS["C18"]["assumptions"] = AWS_ASSUMPTIONS + COMMON_ASSUMPTIONS
